@@ -11,6 +11,22 @@ Object: the hand-written model `KV.Stil` (Model/Stil.lean) of `stil.py` after pa
 `x` of it is given by a decomposition `mid = pre ++ x :: post` (`x` not a marker): `(cellsOf post).length` is its
 position counted from scan-out, `markers pre` / `markers post` the number of "!" between scan-in / scan-out and it.
 
+**Name → row (audit finding 2, fix D36).**  Interface names need not be unique (bench-style `OUTPUT(q1) q1 = DFF(g)`: port fork
+and flip-flop are both `q1`).  The theorems speak about `Circ.cellRow x` (row of a scan cell: looked up among the state elements
+first) and `Circ.portRow x` (row of a `_pi`/`_po` member: among the ports first) — the REPAIRED `_maps` (`LookMode.role`);
+`rows_by_role`: a cell that is a state element gets a state row with its name, a member that is a port a port row, whatever else
+carries the name; `rows_unique_names`: with pairwise different names both are `s_nodes.idxOf x` (the earlier formulation);
+`name_clash_as_found`: the code as found (`LookMode.last`, one dictionary, last position) on the auditor's witness.  The harness probes
+nothing here: the model in property mode is compared with the code under test, and a difference that the as-found look-up
+(`sfl`) reproduces is the oracle's violation class `name-clash` (fixed finding D36); the generator makes scan-out ports and plain
+outputs of bench-style circuits the output fork of a flip-flop (tags `name-clash:*`).
+**Hypotheses.**  `hnd` (the target rows of one call are pairwise different) is evaluated by the driver (`stil hnd`) on every case's
+real parse result (tags `hyp:hnd:*`, together with "interface names pairwise different"); a well-formed generated case outside it
+is a broken tie.  `hp : (extract fl)[i]? = some p` — `Stil.extract` (pattern assembly from the call list, stil.py:28-56) has NO
+theorem of its own: what it guarantees (pattern `i` = the load of the `i`-th `load_unload` that is followed by a capture, the
+launch / capture parameters of the calls between it and the next `load_unload`, the unload of that next `load_unload`; strings
+with `\n` removed and `N` → `-`) is tied to `StilFile.__init__` by exact correspondence only (driver `stil pats` == `s.patterns`
+on every case) and checked against the generator's pattern list by the oracle.
 **Theorems (kernel-checked, all chains / marker placements / strings / circuits):**
 * `load_pos`, `unload_pos`, `pi_po_map`/`po_map`, `order_is_s_nodes`, `loc_transition` (+ `loc_transition_input`, `loc_rowwise`)
   about the model; `interp_table`, `mv_transition_table`, `mv_xor_table`, `invLoad_code` tie the model's value functions to the
@@ -76,9 +92,35 @@ theorem xorInv_bool (a b : Bool) : xorInv b (V3.ofBool a) = V3.ofBool (a ^^ b) :
 theorem xorInv_unknown (b : Bool) (v : V3) (h : v.unk = true) : xorInv b v = V3.unknown := by
   rcases v with ⟨x, y, z⟩; cases b <;> cases x <;> cases y <;> cases z <;> first | decide | (simp [V3.unk] at h)
 
+/-! ## name → row (audit finding 2, fix D36)
+
+`_maps` turns the names of the STIL file into rows of the result.  Interface names need not be unique: in a bench-style circuit
+`OUTPUT(q1)  q1 = DFF(g)` the port fork and the flip-flop are both called `q1`.  The code as found built ONE dictionary over
+`s_nodes` (the LAST position of a name: the flip-flop), so the `_po` character of port `q1` went to the flip-flop's row and the
+port row stayed unassigned (`name_clash_as_found`).  Repaired (`LookMode.role`, the mode of all theorems): a `_pi`/`_po` member is
+looked up among the ports first (`Circ.portRow`), a scan cell among the state elements first (`Circ.cellRow`); within its role
+the last position counts (names are unique there in every real circuit: keys of `Circuit.cells` / `Circuit.forks`). -/
+
+/-- the row of a scan cell that is a state element is a STATE row (at or behind `io_nodes`) carrying that name, whatever the ports
+are called; the row of a group member that is a port is a PORT row carrying that name, whatever the state elements are called -/
+theorem rows_by_role (c : Circ) (x : String) :
+    (x ∈ c.stateNames → c.io.length ≤ c.cellRow x ∧ c.stateNames[c.cellRow x - c.io.length]? = some x) ∧
+    (x ∈ c.io → c.portRow x < c.io.length ∧ c.io[c.portRow x]? = some x) ∧
+    c.sNodes = c.io ++ c.stateNames :=
+  ⟨cellRow_state, portRow_port, sNodes_split c⟩
+
+/-- where the interface names are pairwise different (Verilog-style circuits: every interface node is a cell) both rows are
+the position `s_nodes.idxOf x` — the formulation of the theorems before the audit -/
+theorem rows_unique_names (c : Circ) (x : String) (hnd : c.sNodes.Nodup) (hx : x ∈ c.sNodes) :
+    c.cellRow x = c.sNodes.idxOf x ∧ c.portRow x = c.sNodes.idxOf x := by
+  have h1 := @cellRow_get c x hx
+  have h2 := @portRow_get c x hx
+  have h0 : c.sNodes[c.sNodes.idxOf x]? = some x := idxOf_get hx
+  exact ⟨(List.getElem?_inj (cellRow_lt hx) hnd).1 (h1.trans h0.symm), (List.getElem?_inj (portRow_lt hx) hnd).1 (h2.trans h0.symm)⟩
+
 /-! ## scan loads -/
-/-- **load_pos.** If `tests` returns `M`, then in the column of pattern `i` the row of cell `x` — which is the position of
-`x` in `s_nodes` — holds character `j` of the load string of the chain's scan-in port, `j` = number of cells between
+/-- **load_pos.** If `tests` returns `M`, then in the column of pattern `i` the row of cell `x` — `c.cellRow x`: the row of the
+state element of that name (`rows_by_role`; `s_nodes.idxOf x` where names are unique, `rows_unique_names`) — holds character `j` of the load string of the chain's scan-in port, `j` = number of cells between
 `x` and scan-out, inverted iff the number of markers between scan-in and `x` is odd (`invLoad` leaves `X`/`-` alone).
 `hnd`: no two scan cells / `_pi` members resolve to the same row. -/
 theorem load_pos (c : Circ) (fl : File) (M : List (List V3)) (i : Nat) (p : Pat) (ch : Chain)
@@ -87,16 +129,16 @@ theorem load_pos (c : Circ) (fl : File) (M : List (List V3)) (i : Nat) (p : Pat)
     (hch : ch ∈ fl.chains) (hmid : ch.mid = pre ++ x :: post) (hx : isMark x = false) (hxin : x ∈ c.sNodes)
     (hnd : ((mapsPure .spec c fl).scanRows ++ (mapsPure .spec c fl).pi).Nodup)
     (hs : p.load.lookup ch.si = some s) (hcj : s[(cellsOf post).length]? = some cj) :
-    ∃ col, M[i]? = some col ∧ c.sNodes[c.sNodes.idxOf x]? = some x ∧
-      col[c.sNodes.idxOf x]? = some (invLoad (odd (markers pre)) (interp cj)) := by
-  refine ⟨testsCol (mapsPure .spec c fl) p, ?_, idxOf_get hxin, ?_⟩
+    ∃ col, M[i]? = some col ∧ c.sNodes[c.cellRow x]? = some x ∧
+      col[c.cellRow x]? = some (invLoad (odd (markers pre)) (interp cj)) := by
+  refine ⟨testsCol (mapsPure .spec c fl) p, ?_, cellRow_get hxin, ?_⟩
   · rw [tests_ok hok, List.getElem?_map, hp]; rfl
   · unfold testsCol
     apply applyWrites_get_unique
     · rw [List.map_append]
       exact ((loadWrites_targets _ _ _).append (zip_fst_sublist _ _)).nodup hnd
     · exact List.mem_append_left _ (loadWrites_mem c fl p ch pre post x invLoad hch hmid hx hs hcj)
-    · rw [blank_length, mapsPure_n]; exact List.idxOf_lt_length_iff.2 hxin
+    · rw [blank_length, mapsPure_n]; exact cellRow_lt hxin
 
 /-! ## scan unloads -/
 /-- **unload_pos.** In `responses`, the row of cell `x` holds character `j` (counted as above) of the unload string of
@@ -107,16 +149,16 @@ theorem unload_pos (c : Circ) (fl : File) (M : List (List V3)) (i : Nat) (p : Pa
     (hch : ch ∈ fl.chains) (hmid : ch.mid = pre ++ x :: post) (hx : isMark x = false) (hxin : x ∈ c.sNodes)
     (hnd : ((mapsPure .spec c fl).po ++ (mapsPure .spec c fl).scanRows).Nodup)
     (hs : p.unload.lookup ch.so = some s) (hcj : s[(cellsOf post).length]? = some cj) :
-    ∃ col, M[i]? = some col ∧ c.sNodes[c.sNodes.idxOf x]? = some x ∧
-      col[c.sNodes.idxOf x]? = some (xorInv (odd (markers post)) (interp cj)) := by
-  refine ⟨respCol (mapsPure .spec c fl) p, ?_, idxOf_get hxin, ?_⟩
+    ∃ col, M[i]? = some col ∧ c.sNodes[c.cellRow x]? = some x ∧
+      col[c.cellRow x]? = some (xorInv (odd (markers post)) (interp cj)) := by
+  refine ⟨respCol (mapsPure .spec c fl) p, ?_, cellRow_get hxin, ?_⟩
   · rw [responses_ok hok, List.getElem?_map, hp]; rfl
   · unfold respCol
     apply applyWrites_get_unique
     · rw [List.map_append]
       exact ((zip_fst_sublist _ _).append (unloadWrites_targets _ _)).nodup hnd
     · exact List.mem_append_right _ (unloadWrites_mem c fl p ch pre post x hch hmid hx hs hcj)
-    · rw [blank_length, mapsPure_n]; exact List.idxOf_lt_length_iff.2 hxin
+    · rw [blank_length, mapsPure_n]; exact cellRow_lt hxin
 
 /-! ## primary inputs and outputs through the signal groups -/
 /-- **pi_po_map (inputs).** Character `k` of the capture call's `_pi` string lands, uninverted, on the row of the
@@ -127,9 +169,9 @@ theorem pi_po_map (c : Circ) (fl : File) (M : List (List V3)) (i : Nat) (p : Pat
     (hk : (group fl "_pi")[k]? = some x) (hxin : x ∈ c.sNodes)
     (hnd : ((mapsPure .spec c fl).scanRows ++ (mapsPure .spec c fl).pi).Nodup)
     (hs : p.capture.lookup "_pi" = some s) (hck : s[k]? = some ck) :
-    ∃ col, M[i]? = some col ∧ c.sNodes[c.sNodes.idxOf x]? = some x ∧
-      col[c.sNodes.idxOf x]? = some (interp ck) := by
-  refine ⟨testsCol (mapsPure .spec c fl) p, ?_, idxOf_get hxin, ?_⟩
+    ∃ col, M[i]? = some col ∧ c.sNodes[c.portRow x]? = some x ∧
+      col[c.portRow x]? = some (interp ck) := by
+  refine ⟨testsCol (mapsPure .spec c fl) p, ?_, portRow_get hxin, ?_⟩
   · rw [tests_ok hok, List.getElem?_map, hp]; rfl
   · unfold testsCol
     apply applyWrites_get_unique
@@ -138,7 +180,7 @@ theorem pi_po_map (c : Circ) (fl : File) (M : List (List V3)) (i : Nat) (p : Pat
     · apply List.mem_append_right
       rw [str_of_lookup hs]
       exact group_write_mem c _ s k x ck hk hck
-    · rw [blank_length, mapsPure_n]; exact List.idxOf_lt_length_iff.2 hxin
+    · rw [blank_length, mapsPure_n]; exact portRow_lt hxin
 
 /-- **pi_po_map (outputs).** Character `k` of the capture call's `_po` string lands on the row of the `k`-th member
 of signal group `_po` in `responses`. -/
@@ -148,9 +190,9 @@ theorem po_map (c : Circ) (fl : File) (M : List (List V3)) (i : Nat) (p : Pat) (
     (hk : (group fl "_po")[k]? = some x) (hxin : x ∈ c.sNodes)
     (hnd : ((mapsPure .spec c fl).po ++ (mapsPure .spec c fl).scanRows).Nodup)
     (hcap : p.capture.length > 0) (hs : p.capture.lookup "_po" = some s) (hck : s[k]? = some ck) :
-    ∃ col, M[i]? = some col ∧ c.sNodes[c.sNodes.idxOf x]? = some x ∧
-      col[c.sNodes.idxOf x]? = some (interp ck) := by
-  refine ⟨respCol (mapsPure .spec c fl) p, ?_, idxOf_get hxin, ?_⟩
+    ∃ col, M[i]? = some col ∧ c.sNodes[c.portRow x]? = some x ∧
+      col[c.portRow x]? = some (interp ck) := by
+  refine ⟨respCol (mapsPure .spec c fl) p, ?_, portRow_get hxin, ?_⟩
   · rw [responses_ok hok, List.getElem?_map, hp]; rfl
   · unfold respCol
     apply applyWrites_get_unique
@@ -160,12 +202,12 @@ theorem po_map (c : Circ) (fl : File) (M : List (List V3)) (i : Nat) (p : Pat) (
       have : poStr p = s := by simp [poStr, hcap, str_of_lookup hs]
       rw [this]
       exact group_write_mem c _ s k x ck hk hck
-    · rw [blank_length, mapsPure_n]; exact List.idxOf_lt_length_iff.2 hxin
+    · rw [blank_length, mapsPure_n]; exact portRow_lt hxin
 
 /-! ## rows follow `s_nodes` -/
 /-- **order_is_s_nodes.** Every column returned by the three functions has one row per element of `s_nodes`
 (io_nodes, then kinds containing "dff", then kinds containing "latch", case-insensitive); together with the row
-index `s_nodes.idxOf x` in the theorems above, row `r` belongs to `s_nodes[r]`. -/
+index `cellRow x` / `portRow x` in the theorems above, row `r` belongs to `s_nodes[r]`. -/
 theorem order_is_s_nodes (c : Circ) (fl : File) (nxt M : List (List V3)) :
     (tests .spec c fl = .ok M → ∀ col ∈ M, col.length = c.sNodes.length) ∧
     (responses .spec c fl = .ok M → ∀ col ∈ M, col.length = c.sNodes.length) ∧
@@ -261,16 +303,16 @@ theorem loc_transition (c : Circ) (fl : File) (nxt M : List (List V3)) (i : Nat)
     (hch : ch ∈ fl.chains) (hmid : ch.mid = pre ++ x :: post) (hx : isMark x = false) (hxin : x ∈ c.sNodes)
     (hnd : ((mapsPure .spec c fl).scanRows ++ (mapsPure .spec c fl).pi ++ (mapsPure .spec c fl).po).Nodup)
     (hs : p.load.lookup ch.si = some s) (hcj : s[(cellsOf post).length]? = some cj) :
-    ∃ col, M[i]? = some col ∧ c.sNodes[c.sNodes.idxOf x]? = some x ∧
-      col[c.sNodes.idxOf x]? = some (mvTransition (invLoad (odd (markers pre)) (interp cj))
-        (if noLaunchPulse p then xorInv (odd (markers pre)) (interp cj) else nx.getD (c.sNodes.idxOf x) V3.unknown)) := by
+    ∃ col, M[i]? = some col ∧ c.sNodes[c.cellRow x]? = some x ∧
+      col[c.cellRow x]? = some (mvTransition (invLoad (odd (markers pre)) (interp cj))
+        (if noLaunchPulse p then xorInv (odd (markers pre)) (interp cj) else nx.getD (c.cellRow x) V3.unknown)) := by
   obtain ⟨_, _, hnx⟩ := testsLoc_ok hok
   have hnl : nx.length = c.sNodes.length := hnx nx (List.mem_of_getElem? hn)
-  have hr : c.sNodes.idxOf x < c.sNodes.length := List.idxOf_lt_length_iff.2 hxin
+  have hr : c.cellRow x < c.sNodes.length := cellRow_lt hxin
   have hnd1 := (List.nodup_append.1 hnd).1
   have hdisj := (List.nodup_append.1 hnd).2.2
   have hrow := row_mem_scanRows c fl ch pre post x hch hmid hx
-  refine ⟨_, loc_rowwise c fl nxt M i p nx hok hp hn, idxOf_get hxin, ?_⟩
+  refine ⟨_, loc_rowwise c fl nxt M i p nx hok hp hn, cellRow_get hxin, ?_⟩
   rw [List.getElem?_zipWith_eq_some]
   refine ⟨_, _, ?_, ?_, rfl⟩
   · unfold initCol
@@ -298,7 +340,7 @@ theorem loc_transition (c : Circ) (fl : File) (nxt M : List (List V3)) (i : Nat)
     · have hl' : noLaunchPulse p = false := by simpa using hl
       simp only [hl', Bool.false_eq_true, if_false, List.nil_append]
       rw [applyWrites_get_of_not_mem]
-      · rw [List.getD_eq_getElem?_getD, List.getElem?_eq_getElem (by omega : c.sNodes.idxOf x < nx.length)]; rfl
+      · rw [List.getD_eq_getElem?_getD, List.getElem?_eq_getElem (by omega : c.cellRow x < nx.length)]; rfl
       · intro hm
         rw [List.map_append, hpo] at hm
         rcases List.mem_append.1 hm with h1 | h1
@@ -315,18 +357,18 @@ theorem loc_transition_input (c : Circ) (fl : File) (nxt M : List (List V3)) (i 
     (hk : (group fl "_pi")[k]? = some x) (hxin : x ∈ c.sNodes)
     (hnd : ((mapsPure .spec c fl).scanRows ++ (mapsPure .spec c fl).pi ++ (mapsPure .spec c fl).po).Nodup)
     (hci : (initPiStr p)[k]? = some ci) (hcc : capturePulse p = true → (str p.capture "_pi")[k]? = some cc) :
-    ∃ col, M[i]? = some col ∧ c.sNodes[c.sNodes.idxOf x]? = some x ∧
-      col[c.sNodes.idxOf x]? = some (mvTransition (interp ci)
-        (if capturePulse p then interp cc else nx.getD (c.sNodes.idxOf x) V3.unknown)) := by
+    ∃ col, M[i]? = some col ∧ c.sNodes[c.portRow x]? = some x ∧
+      col[c.portRow x]? = some (mvTransition (interp ci)
+        (if capturePulse p then interp cc else nx.getD (c.portRow x) V3.unknown)) := by
   obtain ⟨_, _, hnx⟩ := testsLoc_ok hok
   have hnl : nx.length = c.sNodes.length := hnx nx (List.mem_of_getElem? hn)
-  have hr : c.sNodes.idxOf x < c.sNodes.length := List.idxOf_lt_length_iff.2 hxin
+  have hr : c.portRow x < c.sNodes.length := portRow_lt hxin
   have hnd1 := (List.nodup_append.1 hnd).1
   have hdisj := (List.nodup_append.1 hnd).2.2
-  have hrow : c.sNodes.idxOf x ∈ (mapsPure .spec c fl).pi := by
+  have hrow : c.portRow x ∈ (mapsPure .spec c fl).pi := by
     simp only [mapsPure, Mode.spec, Circ.intf]
     exact List.mem_map.2 ⟨x, List.mem_of_getElem? hk, rfl⟩
-  refine ⟨_, loc_rowwise c fl nxt M i p nx hok hp hn, idxOf_get hxin, ?_⟩
+  refine ⟨_, loc_rowwise c fl nxt M i p nx hok hp hn, portRow_get hxin, ?_⟩
   rw [List.getElem?_zipWith_eq_some]
   refine ⟨_, _, ?_, ?_, rfl⟩
   · unfold initCol
@@ -353,7 +395,7 @@ theorem loc_transition_input (c : Circ) (fl : File) (nxt M : List (List V3)) (i 
     · have hc' : capturePulse p = false := by simpa using hc
       simp only [hc', Bool.false_eq_true, if_false, List.append_nil]
       rw [applyWrites_get_of_not_mem]
-      · rw [List.getD_eq_getElem?_getD, List.getElem?_eq_getElem (by omega : c.sNodes.idxOf x < nx.length)]; rfl
+      · rw [List.getD_eq_getElem?_getD, List.getElem?_eq_getElem (by omega : c.portRow x < nx.length)]; rfl
       · intro hm
         rw [List.map_append, hpo] at hm
         rcases List.mem_append.1 hm with h1 | h1
@@ -397,17 +439,17 @@ theorem loc_assignment_state (c : Circ) (fl : File) (net : Net) (names : List St
     (hch : ch ∈ fl.chains) (hmid : ch.mid = pre ++ x :: post) (hx : isMark x = false) (hxin : x ∈ c.sNodes)
     (hnd : ((mapsPure .spec c fl).scanRows ++ (mapsPure .spec c fl).pi).Nodup)
     (hs : p.load.lookup ch.si = some s) (hcj : s[(cellsOf post).length]? = some cj) :
-    envOf net (initCol (mapsPure .spec c fl) p) (net.idx.ppi + c.sNodes.idxOf x) =
+    envOf net (initCol (mapsPure .spec c fl) p) (net.idx.ppi + c.cellRow x) =
       invLoad (odd (markers pre)) (interp cj) := by
   obtain ⟨n, _, _, hlt⟩ := row_node hcompat hxin
   rw [envOf_ppi net _ _ hlt, List.getD_eq_getElem?_getD]
-  have : (initCol (mapsPure .spec c fl) p)[c.sNodes.idxOf x]? = some (invLoad (odd (markers pre)) (interp cj)) := by
+  have : (initCol (mapsPure .spec c fl) p)[c.cellRow x]? = some (invLoad (odd (markers pre)) (interp cj)) := by
     unfold initCol
     apply applyWrites_get_unique
     · rw [List.map_append]
       exact ((loadWrites_targets _ _ _).append (zip_fst_sublist _ _)).nodup hnd
     · exact List.mem_append_left _ (loadWrites_mem c fl p ch pre post x invLoad hch hmid hx hs hcj)
-    · rw [blank_length, mapsPure_n]; exact List.idxOf_lt_length_iff.2 hxin
+    · rw [blank_length, mapsPure_n]; exact cellRow_lt hxin
   rw [this]; rfl
 
 /-- **the assignment (inputs).** … and for the `k`-th member of `_pi` character `k` of the launch call's `_pi` string (of the
@@ -417,16 +459,16 @@ theorem loc_assignment_input (c : Circ) (fl : File) (net : Net) (names : List St
     (hk : (group fl "_pi")[k]? = some x) (hxin : x ∈ c.sNodes)
     (hnd : ((mapsPure .spec c fl).scanRows ++ (mapsPure .spec c fl).pi).Nodup)
     (hci : (initPiStr p)[k]? = some ci) :
-    envOf net (initCol (mapsPure .spec c fl) p) (net.idx.ppi + c.sNodes.idxOf x) = interp ci := by
-  obtain ⟨n, _, _, hlt⟩ := row_node hcompat hxin
+    envOf net (initCol (mapsPure .spec c fl) p) (net.idx.ppi + c.portRow x) = interp ci := by
+  obtain ⟨n, _, _, hlt⟩ := row_node_port hcompat hxin
   rw [envOf_ppi net _ _ hlt, List.getD_eq_getElem?_getD]
-  have : (initCol (mapsPure .spec c fl) p)[c.sNodes.idxOf x]? = some (interp ci) := by
+  have : (initCol (mapsPure .spec c fl) p)[c.portRow x]? = some (interp ci) := by
     unfold initCol
     apply applyWrites_get_unique
     · rw [List.map_append]
       exact ((loadWrites_targets _ _ _).append (zip_fst_sublist _ _)).nodup hnd
     · exact List.mem_append_right _ (group_write_mem c _ _ k x ci hk hci)
-    · rw [blank_length, mapsPure_n]; exact List.idxOf_lt_length_iff.2 hxin
+    · rw [blank_length, mapsPure_n]; exact portRow_lt hxin
   rw [this]; rfl
 
 /-- **the assignment (rest).** every signal that is not an input slot — the constant-0 slot, the scratch slots, lines before
@@ -454,10 +496,10 @@ theorem tests_loc_rows (c : Circ) (fl : File) (net : Net) (names : List String) 
     (hch : ch ∈ fl.chains) (hmid : ch.mid = pre ++ x :: post) (hx : isMark x = false) (hxin : x ∈ c.sNodes)
     (hnd : ((mapsPure .spec c fl).scanRows ++ (mapsPure .spec c fl).pi ++ (mapsPure .spec c fl).po).Nodup)
     (hs : p.load.lookup ch.si = some s) (hcj : s[(cellsOf post).length]? = some cj) :
-    ∃ col, M[i]? = some col ∧ c.sNodes[c.sNodes.idxOf x]? = some x ∧
-      col[c.sNodes.idxOf x]? = some (mvTransition (invLoad (odd (markers pre)) (interp cj))
+    ∃ col, M[i]? = some col ∧ c.sNodes[c.cellRow x]? = some x ∧
+      col[c.cellRow x]? = some (mvTransition (invLoad (odd (markers pre)) (interp cj))
         (if noLaunchPulse p then xorInv (odd (markers pre)) (interp cj)
-         else captured net (valOf net order (initCol (mapsPure .spec c fl) p)) (c.sNodes.idxOf x))) := by
+         else captured net (valOf net order (initCol (mapsPure .spec c fl) p)) (c.cellRow x))) := by
   obtain ⟨n, _, _, hlt⟩ := row_node hcompat hxin
   have := loc_transition c fl _ M i p _ ch pre post x s cj hok hp (nxtOf_get hp) hch hmid hx hxin hnd hs hcj
   rwa [simRow_getD _ _ _ _ _ _ hlt] at this
@@ -477,9 +519,9 @@ theorem tests_loc_end_to_end (c : Circ) (fl : File) (net : Net) (names : List St
     (hnd : ((mapsPure .spec c fl).scanRows ++ (mapsPure .spec c fl).pi ++ (mapsPure .spec c fl).po).Nodup)
     (hs : p.load.lookup ch.si = some s) (hcj : s[(cellsOf post).length]? = some cj)
     (hσ : NetConsistent net order specNot prim8 (envOf net (initCol (mapsPure .spec c fl) p)) σ)
-    (hn : net.sNodes[c.sNodes.idxOf x]? = some n) (hl : (net.node n).inPin 0 = some l) :
-    ∃ col, M[i]? = some col ∧ c.sNodes[c.sNodes.idxOf x]? = some x ∧ nameAt names n = x ∧
-      col[c.sNodes.idxOf x]? = some (mvTransition (invLoad (odd (markers pre)) (interp cj))
+    (hn : net.sNodes[c.cellRow x]? = some n) (hl : (net.node n).inPin 0 = some l) :
+    ∃ col, M[i]? = some col ∧ c.sNodes[c.cellRow x]? = some x ∧ nameAt names n = x ∧
+      col[c.cellRow x]? = some (mvTransition (invLoad (odd (markers pre)) (interp cj))
         (if noLaunchPulse p then xorInv (odd (markers pre)) (interp cj) else σ l)) := by
   obtain ⟨col, h1, h2, h3⟩ := tests_loc_rows c fl net names order M i p ch pre post x s cj hcompat hok hp hch hmid hx hxin
     hnd hs hcj
@@ -497,10 +539,10 @@ theorem tests_loc_end_to_end_open (c : Circ) (fl : File) (net : Net) (names : Li
     (hch : ch ∈ fl.chains) (hmid : ch.mid = pre ++ x :: post) (hx : isMark x = false) (hxin : x ∈ c.sNodes)
     (hnd : ((mapsPure .spec c fl).scanRows ++ (mapsPure .spec c fl).pi ++ (mapsPure .spec c fl).po).Nodup)
     (hs : p.load.lookup ch.si = some s) (hcj : s[(cellsOf post).length]? = some cj)
-    (hn : net.sNodes[c.sNodes.idxOf x]? = some n) (hl : (net.node n).inPin 0 = none)
-    (hst : net.io.length ≤ c.sNodes.idxOf x) :
-    ∃ col, M[i]? = some col ∧ c.sNodes[c.sNodes.idxOf x]? = some x ∧
-      col[c.sNodes.idxOf x]? = some (mvTransition (invLoad (odd (markers pre)) (interp cj))
+    (hn : net.sNodes[c.cellRow x]? = some n) (hl : (net.node n).inPin 0 = none)
+    (hst : net.io.length ≤ c.cellRow x) :
+    ∃ col, M[i]? = some col ∧ c.sNodes[c.cellRow x]? = some x ∧
+      col[c.cellRow x]? = some (mvTransition (invLoad (odd (markers pre)) (interp cj))
         (if noLaunchPulse p then xorInv (odd (markers pre)) (interp cj) else V3.zero)) := by
   obtain ⟨col, h1, h2, h3⟩ := tests_loc_rows c fl net names order M i p ch pre post x s cj hcompat hok hp hch hmid hx hxin
     hnd hs hcj
@@ -518,14 +560,14 @@ theorem tests_loc_end_to_end_input (c : Circ) (fl : File) (net : Net) (names : L
     (hnd : ((mapsPure .spec c fl).scanRows ++ (mapsPure .spec c fl).pi ++ (mapsPure .spec c fl).po).Nodup)
     (hci : (initPiStr p)[k]? = some ci) (hcc : capturePulse p = true → (str p.capture "_pi")[k]? = some cc)
     (hσ : NetConsistent net order specNot prim8 (envOf net (initCol (mapsPure .spec c fl) p)) σ)
-    (hn : net.sNodes[c.sNodes.idxOf x]? = some n) (hio : c.sNodes.idxOf x < net.io.length) :
-    ∃ col, M[i]? = some col ∧ c.sNodes[c.sNodes.idxOf x]? = some x ∧ nameAt names n = x ∧
-      col[c.sNodes.idxOf x]? = some (mvTransition (interp ci)
+    (hn : net.sNodes[c.portRow x]? = some n) (hio : c.portRow x < net.io.length) :
+    ∃ col, M[i]? = some col ∧ c.sNodes[c.portRow x]? = some x ∧ nameAt names n = x ∧
+      col[c.portRow x]? = some (mvTransition (interp ci)
         (if capturePulse p then interp cc else
           match (net.node n).inPin 0 with
           | some l => σ l
           | none => V3.unassigned)) := by
-  obtain ⟨n', hn', hname, hlt⟩ := row_node hcompat hxin
+  obtain ⟨n', hn', hname, hlt⟩ := row_node_port hcompat hxin
   rw [hn] at hn'; injection hn' with hn'; subst hn'
   obtain ⟨col, h1, h2, h3⟩ := loc_transition_input c fl _ M i p _ k x ci cc hok hp (nxtOf_get hp) hk hxin hnd hci hcc
   refine ⟨col, h1, h2, hname, ?_⟩
@@ -585,15 +627,15 @@ example : (extract exF)[0]? = some exP := by decide +kernel
 example : tests .spec exC exF = .ok exTests := by decide +kernel
 example : responses .spec exC exF = .ok exResp := by decide +kernel
 /-- hypotheses of `load_pos` hold for cell `f1` (behind adjacent markers, before one more cell and a marker) -/
-example : ∃ col, exTests[0]? = some col ∧ exC.sNodes[exC.sNodes.idxOf "f1"]? = some "f1" ∧
-    col[exC.sNodes.idxOf "f1"]? = some (invLoad (odd (markers ["!", "f0", "!", "!"])) (interp '0')) :=
+example : ∃ col, exTests[0]? = some col ∧ exC.sNodes[exC.cellRow "f1"]? = some "f1" ∧
+    col[exC.cellRow "f1"]? = some (invLoad (odd (markers ["!", "f0", "!", "!"])) (interp '0')) :=
   load_pos exC exF exTests 0 exP exChain ["!", "f0", "!", "!"] ["f2", "!"] "f1" "10-".toList '0'
     (by decide +kernel) (by decide +kernel) (by decide +kernel) (by decide +kernel) (by decide +kernel)
     (by decide +kernel) (by decide +kernel) (by decide +kernel) (by decide +kernel)
-example : exC.sNodes.idxOf "f1" = 5 ∧ invLoad (odd (markers ["!", "f0", "!", "!"])) (interp '0') = V3.one := by
+example : exC.cellRow "f1" = 5 ∧ invLoad (odd (markers ["!", "f0", "!", "!"])) (interp '0') = V3.one := by
   decide +kernel
-example : ∃ col, exResp[0]? = some col ∧ exC.sNodes[exC.sNodes.idxOf "f1"]? = some "f1" ∧
-    col[exC.sNodes.idxOf "f1"]? = some (xorInv (odd (markers ["f2", "!"])) (interp 'H')) :=
+example : ∃ col, exResp[0]? = some col ∧ exC.sNodes[exC.cellRow "f1"]? = some "f1" ∧
+    col[exC.cellRow "f1"]? = some (xorInv (odd (markers ["f2", "!"])) (interp 'H')) :=
   unload_pos exC exF exResp 0 exP exChain ["!", "f0", "!", "!"] ["f2", "!"] "f1" "LHX".toList 'H'
     (by decide +kernel) (by decide +kernel) (by decide +kernel) (by decide +kernel) (by decide +kernel)
     (by decide +kernel) (by decide +kernel) (by decide +kernel) (by decide +kernel)
@@ -603,21 +645,21 @@ example : ((mapsPure .spec exC exF).scanRows ++ (mapsPure .spec exC exF).pi ++ (
 example : testsLoc .spec exC exF exNxt = .ok exLoc := by decide +kernel
 example : noLaunchPulse exP = false ∧ capturePulse exP = true := by decide +kernel
 /-- hypotheses of `loc_transition` hold for cell `f1`, pattern 0 (launch and capture pulse: launch = simulated state) -/
-example : ∃ col, exLoc[0]? = some col ∧ exC.sNodes[exC.sNodes.idxOf "f1"]? = some "f1" ∧
-    col[exC.sNodes.idxOf "f1"]? = some (mvTransition (invLoad (odd (markers ["!", "f0", "!", "!"])) (interp '0'))
+example : ∃ col, exLoc[0]? = some col ∧ exC.sNodes[exC.cellRow "f1"]? = some "f1" ∧
+    col[exC.cellRow "f1"]? = some (mvTransition (invLoad (odd (markers ["!", "f0", "!", "!"])) (interp '0'))
       (if noLaunchPulse exP then xorInv (odd (markers ["!", "f0", "!", "!"])) (interp '0')
-       else ([2, 2, 0, 3, 3, 3, 3, 0].map v).getD (exC.sNodes.idxOf "f1") V3.unknown)) :=
+       else ([2, 2, 0, 3, 3, 3, 3, 0].map v).getD (exC.cellRow "f1") V3.unknown)) :=
   loc_transition exC exF exNxt exLoc 0 exP ([2, 2, 0, 3, 3, 3, 3, 0].map v) exChain ["!", "f0", "!", "!"] ["f2", "!"] "f1"
     "10-".toList '0' (by decide +kernel) (by decide +kernel) (by decide +kernel) (by decide +kernel) (by decide +kernel)
     (by decide +kernel) (by decide +kernel) (by decide +kernel) (by decide +kernel) (by decide +kernel)
 /-- hypotheses of `pi_po_map` / `loc_transition_input` hold for input `a` (second member of the shuffled group `_pi`) -/
-example : ∃ col, exTests[0]? = some col ∧ exC.sNodes[exC.sNodes.idxOf "a"]? = some "a" ∧
-    col[exC.sNodes.idxOf "a"]? = some (interp 'P') :=
+example : ∃ col, exTests[0]? = some col ∧ exC.sNodes[exC.portRow "a"]? = some "a" ∧
+    col[exC.portRow "a"]? = some (interp 'P') :=
   pi_po_map exC exF exTests 0 exP 1 "a" "1P".toList 'P' (by decide +kernel) (by decide +kernel) (by decide +kernel)
     (by decide +kernel) (by decide +kernel) (by decide +kernel) (by decide +kernel)
-example : ∃ col, exLoc[0]? = some col ∧ exC.sNodes[exC.sNodes.idxOf "si"]? = some "si" ∧
-    col[exC.sNodes.idxOf "si"]? = some (mvTransition (interp '0')
-      (if capturePulse exP then interp '1' else ([2, 2, 0, 3, 3, 3, 3, 0].map v).getD (exC.sNodes.idxOf "si") V3.unknown)) :=
+example : ∃ col, exLoc[0]? = some col ∧ exC.sNodes[exC.portRow "si"]? = some "si" ∧
+    col[exC.portRow "si"]? = some (mvTransition (interp '0')
+      (if capturePulse exP then interp '1' else ([2, 2, 0, 3, 3, 3, 3, 0].map v).getD (exC.portRow "si") V3.unknown)) :=
   loc_transition_input exC exF exNxt exLoc 0 exP ([2, 2, 0, 3, 3, 3, 3, 0].map v) 0 "si" '0' '1'
     (by decide +kernel) (by decide +kernel) (by decide +kernel) (by decide +kernel) (by decide +kernel)
     (by decide +kernel) (by decide +kernel) (fun _ => by decide +kernel)
@@ -656,8 +698,8 @@ theorem e2e_loc : testsLoc .spec e2eC e2eF (nxtOf e2eC e2eF e2eNet e2eOrder) = .
   rw [e2e_nxt]; decide +kernel
 /-- all hypotheses of `tests_loc_end_to_end` hold for cell `f1` (node 3, data line 3 = output of `g`), `σ` = the simulation
     result, which `loc_labelling_unique` shows consistent; the value is `mv_transition(1, 0)`: a falling transition -/
-example : ∃ col, e2eLoc[0]? = some col ∧ e2eC.sNodes[e2eC.sNodes.idxOf "f1"]? = some "f1" ∧ nameAt e2eNames 3 = "f1" ∧
-    col[e2eC.sNodes.idxOf "f1"]? = some (mvTransition (invLoad (odd (markers ["f0", "!"])) (interp '0'))
+example : ∃ col, e2eLoc[0]? = some col ∧ e2eC.sNodes[e2eC.cellRow "f1"]? = some "f1" ∧ nameAt e2eNames 3 = "f1" ∧
+    col[e2eC.cellRow "f1"]? = some (mvTransition (invLoad (odd (markers ["f0", "!"])) (interp '0'))
       (if noLaunchPulse e2eP then xorInv (odd (markers ["f0", "!"])) (interp '0')
        else valOf e2eNet e2eOrder (initCol (mapsPure .spec e2eC e2eF) e2eP) 3)) :=
   tests_loc_end_to_end e2eC e2eF e2eNet e2eNames e2eOrder e2eLoc 0 e2eP e2eChain ["f0", "!"] [] "f1" "01".toList '0' _ 3 3
@@ -667,12 +709,12 @@ example : ∃ col, e2eLoc[0]? = some col ∧ e2eC.sNodes[e2eC.sNodes.idxOf "f1"]
 example : mvTransition (invLoad (odd (markers ["f0", "!"])) (interp '0'))
     (valOf e2eNet e2eOrder (initCol (mapsPure .spec e2eC e2eF) e2eP) 3) = fall := by decide +kernel
 /-- the assignment the simulator was given: `f1` = 1 (loaded 0 behind one marker), `a` = 0 (second member of `_pi`) -/
-example : envOf e2eNet (initCol (mapsPure .spec e2eC e2eF) e2eP) (e2eNet.idx.ppi + e2eC.sNodes.idxOf "f1") = V3.one ∧
-    envOf e2eNet (initCol (mapsPure .spec e2eC e2eF) e2eP) (e2eNet.idx.ppi + e2eC.sNodes.idxOf "a") = V3.zero := by
+example : envOf e2eNet (initCol (mapsPure .spec e2eC e2eF) e2eP) (e2eNet.idx.ppi + e2eC.cellRow "f1") = V3.one ∧
+    envOf e2eNet (initCol (mapsPure .spec e2eC e2eF) e2eP) (e2eNet.idx.ppi + e2eC.portRow "a") = V3.zero := by
   decide +kernel
 /-- hypotheses of `tests_loc_end_to_end_input` for the input `a` (node 0, no driver, capture pulse present) -/
-example : ∃ col, e2eLoc[0]? = some col ∧ e2eC.sNodes[e2eC.sNodes.idxOf "a"]? = some "a" ∧ nameAt e2eNames 0 = "a" ∧
-    col[e2eC.sNodes.idxOf "a"]? = some (mvTransition (interp '0')
+example : ∃ col, e2eLoc[0]? = some col ∧ e2eC.sNodes[e2eC.portRow "a"]? = some "a" ∧ nameAt e2eNames 0 = "a" ∧
+    col[e2eC.portRow "a"]? = some (mvTransition (interp '0')
       (if capturePulse e2eP then interp '1' else
         match (e2eNet.node 0).inPin 0 with
         | some l => valOf e2eNet e2eOrder (initCol (mapsPure .spec e2eC e2eF) e2eP) l
@@ -702,13 +744,28 @@ theorem legacy_inversion_differs :
     let c : Circ := ⟨["si", "so"], [("f0", "DFF"), ("f1", "DFF"), ("f2", "DFF")]⟩
     let f : File := ⟨[("_pi", ["si"]), ("_po", ["so"])], [⟨"si", ["f0", "!", "f1", "f2"], "so"⟩],
       [⟨"load_unload", [("si", "100".toList)]⟩, ⟨"x_capture", [("_pi", "0".toList), ("_po", "L".toList)]⟩, ⟨"load_unload", [("so", "LLL".toList)]⟩]⟩
-    tests .spec c f = .ok [[0, 2, 0, 3, 0].map v] ∧ tests ⟨.sNodes, .first⟩ c f = .ok [[0, 2, 3, 3, 0].map v] := by
+    tests .spec c f = .ok [[0, 2, 0, 3, 0].map v] ∧ tests ⟨.sNodes, .first, .role⟩ c f = .ok [[0, 2, 3, 3, 0].map v] := by
+  decide +kernel
+
+/-- audit finding 2 / fix D36 as a model statement: bench-style circuit `INPUT(si) INPUT(a) OUTPUT(q1) OUTPUT(z)  q0 = DFF(si)
+g = AND(a, q0)  q1 = DFF(g)  z = NOT(q1)`, `_po = q1 + z`, chain `si: q0 ! q1 :q1`, capture `_po = LH`, unload `LH`: the property (and
+the repaired code) puts `L` on the row of PORT `q1` (row 2); the code as found (one dictionary, last position) never assigns the port
+row and writes the `_po` character onto the flip-flop's row 5, where the unload character overwrites it -/
+theorem name_clash_as_found :
+    let c : Circ := ⟨["si", "a", "q1", "z"], [("si", "__fork__"), ("a", "__fork__"), ("q1", "__fork__"), ("z", "__fork__"), ("q0", "DFF"),
+      ("q0", "__fork__"), ("g", "AND"), ("g", "__fork__"), ("q1", "DFF"), ("z", "NOT")]⟩
+    let f : File := ⟨[("_pi", ["si", "a"]), ("_po", ["q1", "z"])], [⟨"si", ["q0", "!", "q1"], "q1"⟩],
+      [⟨"load_unload", [("si", "01".toList)]⟩, ⟨"cap_capture", [("_pi", "00".toList), ("_po", "LH".toList)]⟩,
+       ⟨"load_unload", [("q1", "LH".toList)]⟩]⟩
+    c.sNodes = ["si", "a", "q1", "z", "q0", "q1"] ∧ c.portRow "q1" = 2 ∧ c.cellRow "q1" = 5 ∧
+    responses .spec c f = .ok [[2, 2, 0, 3, 0, 0].map v] ∧
+    responses ⟨.sNodes, .full, .last⟩ c f = .ok [[2, 2, 2, 3, 0, 0].map v] := by
   decide +kernel
 
 /-- finding D11 as a model statement: a lower-case `dff` in the chain is a `KeyError` with the as-found interface,
 and with a latch the as-found interface is shorter than `s_nodes` -/
 theorem legacy_interface_differs :
-    tests ⟨.upperDff, .full⟩ exC exF = .error .key ∧ exC.upperDffIntf.length + 2 = exC.sNodes.length := by
+    tests ⟨.upperDff, .full, .role⟩ exC exF = .error .key ∧ exC.upperDffIntf.length + 2 = exC.sNodes.length := by
   decide +kernel
 
 /-! ## text level: the grammar of `stil.py` (Model/StilText.lean) -/
